@@ -306,4 +306,40 @@ Definition inv_gammap (p a : T) : res T :=
 
 Definition inv_gammaq (q a : T) : res T := inv_gammap (n1 Ops - q)%num a.
 
+(** ** Histories of calls to the whole family in one process.
+    The only state a call can leave behind in Special_Functions.cpp is the factorial table (FactorialList):
+    GammaLn, Gamma, GammaP/Q, Upper/Lower and Inv_GammaP/Q have no statics, members or caches.  A call is therefore a step
+    on the table; all but Factorial and Binomial_Coefficient leave it alone. *)
+Inductive call : Type :=
+| CGammaLn (x : T) | CGamma (x : T)
+| CGammaQ (x a : T) | CGammaP (x a : T) | CUpper (x a : T) | CLower (x a : T)
+| CInvP (p a : T) | CInvQ (q a : T)
+| CFact (n : Z) | CBinom (n k : Z).
+
+Definition call_step (tbl : list T) (c : call) : list T * res T :=
+  match c with
+  | CGammaLn x => (tbl, gammaln x)
+  | CGamma x => (tbl, gamma x)
+  | CGammaQ x a => (tbl, gammaq x a)
+  | CGammaP x a => (tbl, gammap x a)
+  | CUpper x a => (tbl, upper_incomplete_gamma x a)
+  | CLower x a => (tbl, lower_incomplete_gamma x a)
+  | CInvP p a => (tbl, inv_gammap p a)
+  | CInvQ q a => (tbl, inv_gammaq q a)
+  | CFact n => factorial_step tbl n
+  | CBinom n k => binomial_step tbl n k
+  end.
+
+(* the answer of a process that has run nothing before: FactorialList = {1.0} *)
+Definition call_fresh (c : call) : res T := snd (call_step fact_init c).
+
+(* a history: the table is threaded through; next to the answer each call gets in the history stands the answer
+   a fresh process gives to the same call (the harness asks for both) *)
+Fixpoint call_run (tbl : list T) (cs : list call) : list T * list (res T * res T) :=
+  match cs with
+  | [] => (tbl, [])
+  | c :: r => let '(t1, o) := call_step tbl c in
+              let '(t2, os) := call_run t1 r in (t2, (o, call_fresh c) :: os)
+  end.
+
 End Model.
